@@ -31,4 +31,43 @@ let () =
               (st_init (bytes_of_hex data) (z 0)))
     | _ -> "badargs")
 
+(* hintscan <valid frame, hex>: bounded search for a hint that exceeds the frame.  The frame is fed to Model.FrameD's
+   decompress from a calloc'ed context in every way of cutting it at two positions k1 <= k2 (what a call does not consume
+   is offered again), with destination capacities 65536 and 3; after every call that returns a hint h > 0 having consumed
+   up to position p: h <= |frame| - p is required.  -> "ok calls=N" | "bad k1=.. k2=.. cap=.. pos=.. hint=.. left=.." *)
+let rec drop k l = if k <= 0 then l else (match l with [] -> [] | _ :: r -> drop (k - 1) r)
+let rec take k l = if k <= 0 then [] else (match l with [] -> [] | x :: r -> x :: take (k - 1) r)
+let () =
+  reg "hintscan" (function [data] ->
+      let frame = bytes_of_hex data in
+      let n = List.length frame in
+      let calls = ref 0 in
+      let bad = ref None in
+      (try
+        List.iter (fun cap ->
+          for k1 = 1 to n do
+            for k2 = k1 to n do
+              let bounds = [k1; k2; n] in
+              let d = ref dctx_init and pos = ref 0 and fin = ref false in
+              List.iter (fun b ->
+                let guard = ref 0 in
+                while not !fin && !pos < b && !guard < 100000 do
+                  incr guard; incr calls;
+                  let piece = take (b - !pos) (drop !pos frame) in
+                  let (d', r) = decompress spec_decode_fast !d piece (z cap) o_null in
+                  d := d';
+                  let c = zi r.r_consumed and h = zi r.r_ret in
+                  if h < 0 then (bad := Some (Printf.sprintf "error %d on a valid frame k1=%d k2=%d cap=%d pos=%d" h k1 k2 cap !pos); raise Exit);
+                  pos := !pos + c;
+                  if h = 0 then fin := true
+                  else if h > n - !pos then
+                    (bad := Some (Printf.sprintf "k1=%d k2=%d cap=%d pos=%d hint=%d left=%d" k1 k2 cap !pos h (n - !pos)); raise Exit)
+                  else if c = 0 && List.length r.r_out = 0 && !pos < b then (guard := 100000)
+                done) bounds
+            done
+          done) [65536; 3]
+       with Exit -> ());
+      (match !bad with None -> Printf.sprintf "ok calls=%d" !calls | Some m -> "bad " ^ m)
+    | _ -> "badargs")
+
 let () = Common.main ()
